@@ -1098,6 +1098,22 @@ func (e *enc) run() {
 		e.vals[fv] = []string{n}
 		e.assume(fmt.Sprintf("(not (= %s null))", n))
 		e.assume(fmt.Sprintf("(>= (root %s) 0)", n))
+		// a captured variable is a cell of its own (never a field or an element of another object)
+		e.assume(fmt.Sprintf("((_ is alloc) %s)", n))
+	}
+	if len(fn.FreeVars) > 1 {
+		// captured variables are distinct variables of the enclosing function: their cells do not alias
+		names := make([]string, 0, len(fn.FreeVars))
+		seen := map[string]bool{}
+		for _, fv := range fn.FreeVars {
+			if n := "fv_" + sanitize(fv.Name()); !seen[n] {
+				seen[n] = true
+				names = append(names, n)
+			}
+		}
+		if len(names) > 1 {
+			e.assume("(distinct " + strings.Join(names, " ") + ")")
+		}
 	}
 	e.entry = st.clone()
 	entrySnapshot := e.entry
